@@ -257,6 +257,12 @@ auto boundary() -> std::vector<T>
     for (int e : {emin, emin + 1, -100, -50, -m - 1, -m, -10, -2, -1, 0, 1, 2, 3, 10, m - 1, m, m + 1, m + 2, 31, 32, 62, 63, 64, 100, emax - 1, emax}) {
         pm(bits(static_cast<T>(::ldexp(1.0, e))));
     }
+    for (int i = 1; i < 24; ++i) { // powers of two spread over the whole exponent range, and 1.5 * 2^e
+        int const e = emin + (emax - emin) * i / 24;
+        pm(bits(static_cast<T>(::ldexp(1.0, e))));
+        b.push_back(bits(static_cast<T>(::ldexp(1.5, e))));
+        b.push_back(bits(static_cast<T>(::ldexp(-1.5, e))));
+    }
     for (int n = 1; n <= 12; ++n) {
         b.push_back(bits(static_cast<T>(n)));
         b.push_back(bits(static_cast<T>(-n)));
@@ -316,6 +322,7 @@ void randoms(vf::Ctx& c)
     std::uint64_t const n     = total / static_cast<unsigned>(c.nshards) + 1;
     std::unordered_set<std::uint64_t> seen;
     std::uint64_t nt = 0, shape_n[6] = {0, 0, 0, 0, 0, 0};
+    (void)shape_n;
     std::uint64_t c_tieq = 0, c_hugeq = 0, c_oppsign = 0, c_special = 0, c_smallq = 0;
     auto rbits = [&]() -> U { return static_cast<U>(rng.next() >> (64 - w)); };
     auto finite_rand = [&]() -> T {
@@ -356,8 +363,12 @@ void randoms(vf::Ctx& c)
             if (mag(x) < mag(y)) { std::swap(x, y); }
             break;
         }
-        case 4: // boundary value x random, either order
+        case 4: // boundary value (every second time a zero, an infinity or a NaN) x random, either order
             x = b[rng.below(b.size())];
+            if ((i / 6) % 2 == 0) {
+                T const sp[] = {T(0), -T(0), std::numeric_limits<T>::infinity(), -std::numeric_limits<T>::infinity(), std::numeric_limits<T>::quiet_NaN(), std::numeric_limits<T>::denorm_min(), -std::numeric_limits<T>::denorm_min()};
+                x            = sp[rng.below(7)];
+            }
             y = from_bits<T>(rbits());
             if (rng.below(2) != 0) { std::swap(x, y); }
             break;
@@ -374,6 +385,9 @@ void randoms(vf::Ctx& c)
         run_pair<T>(x, y);
         ++shape_n[shape];
         bool const t = pair_nt(x, y);
+        if (t && (i & 0x3FFF) == 0x155) {
+            vf::sample("fmod", [&] { return std::string("fmod/remainder/copysign/fmin/fmax/fdim/nextafter ") + BitsOf<T>::name + " " + show_arg(x) + " " + show_arg(y); });
+        }
         if (t && seen.insert(vf::mix(vf::mix(0x16ULL, bits(x)), bits(y))).second) { ++nt; }
         if (fin(x) && fin(y) && !zero_b(y)) {
             long double const q = ::fabsl(static_cast<long double>(x) / static_cast<long double>(y));
